@@ -26,6 +26,19 @@ def gen_structured(rng: random.Random):
     m = rng.random()
     k = lambda: float(rng.choice([1, 2, 3]))  # noqa: E731
     s = lambda: float(rng.choice([-1, 1]))    # noqa: E731
+    if m < 0.05:   # mutual helpers: two terms bound the same eliminated variable in the same direction; the context bounds it through
+        # a chain or not at all.  Each may be discharged only with the already transformed sibling as helper.
+        sg = s()
+        t1 = {"c": {"a": sg * k(), "y": sg * k()}, "k": float(rng.randint(2, 8))}
+        t2 = {"c": {"y": sg * k()}, "k": float(rng.randint(1, 6))}
+        r = rng.random()
+        ctx = []
+        if r < 0.35:
+            ctx = [{"c": {"y": sg, "z": -sg}, "k": float(rng.randint(0, 2))}, {"c": {"z": sg, "b": -sg}, "k": float(rng.randint(0, 2))}]
+        elif r < 0.5:
+            ctx = [{"c": {"y": sg * k(), "b": -sg * k()}, "k": float(rng.randint(0, 3))}]
+        terms = [t1, t2] if rng.random() < 0.7 else [t2, t1]
+        return terms, ctx + G.rtl(rng, KEEP, rng.randint(0, 1)), ["y", "z"] if r < 0.35 else ["y"]
     if m < 0.18:   # tactic 4, goal context
         p = s() * k()
         t = {"c": {"x": p, "a": s() * k()}, "k": float(rng.randint(-3, 6))}
@@ -248,7 +261,7 @@ class C04(Check):
     ]
     assumptions = ["floats denote exact rationals; numeric reading of the property (box 1000, 1e-4 relative tolerance)"]
     min_branches = {"tactic1:ok": 20, "tactic2:ok": 12, "tactic3:ok": 5, "tactic4:ok": 15, "tactic5:ok": 12, "tactic:declined": 100,
-                    "elim:refine": 100, "elim:relax": 100, "uscore": 60, "uscore:tactic3-applied": 2, "xs-dup": 10}
+                    "elim:refine": 100, "elim:relax": 100, "uscore": 60, "uscore:tactic3-applied": 2, "xs-dup": 10, "mutual": 25}
 
     def generate(self, rng, n, tier):
         out = []
@@ -257,7 +270,11 @@ class C04(Check):
             if rng.random() < 0.15 and ctx:
                 ctx = ctx + [dict(c=dict(ctx[0]["c"]), k=ctx[0]["k"])]
             refine = rng.random() < 0.6
-            if rng.random() < 0.5 and set(terms[0]["c"]) & set(xs):
+            mutual = len(terms) == 2 and all("y" in t["c"] for t in terms)
+            if mutual:
+                order = [1, 2, 3, 4, 5] if rng.random() < 0.6 else rng.sample([1, 2, 3, 4, 5], rng.randint(2, 5))
+                out.append({"kind": "elim", "terms": terms, "ctx": ctx, "xs": xs, "refine": rng.random() < 0.8, "simplify": rng.random() < 0.5, "order": order, "tag": "mutual"})
+            elif rng.random() < 0.5 and set(terms[0]["c"]) & set(xs):
                 out.append({"kind": "tactic", "k": rng.randint(1, 5), "t": terms[0], "H": ctx, "xs": xs, "refine": refine})
             else:
                 r = rng.random()
@@ -409,6 +426,8 @@ class C04(Check):
                 b.append("uscore:tactic3-applied")
         if case.get("tag") == "xs-dup":
             b.append("xs-dup")
+        if case.get("tag") == "mutual":
+            b.append("mutual")
         return b
 
     def nontrivial(self, case, impl):
